@@ -184,8 +184,15 @@ class LazyAnalysis:
         out = []
         for q in roots:
             s = self.summaries[q]
+            # parameters the root does not declare as possibly chunked (e.g. documented-NumPy labels) are not chunked at the API
+            mask = s.atoms.ALL
+            for a in s.atoms.names:
+                if a.startswith("ch:") and a[3:] not in roots[q]:
+                    mask &= ~s.atoms.bit(a)
             for sk in s.sinks:
-                out.append((q, s.atoms, sk))
+                c = sk.cond & mask
+                if c:
+                    out.append((q, s.atoms, Sink(sk.func, sk.node, sk.what, c, sk.chain)))
         return out
 
     def summary(self, q: str) -> Summary | None:
